@@ -45,6 +45,16 @@ def m_digest(t):
     return None
 
 
+def m_index(t):
+    """x[i] by Index::index call (Vec, slice ranges) or by built-in slice/array projection -> (x, i), else None."""
+    if isinstance(t, tuple) and t:
+        if t[0] == 'index' and len(t) == 3:
+            return (t[1], t[2])
+        if t[0] == 'call' and call_name(t) == 'index' and len(t[2]) == 2:
+            return (t[2][0], t[2][1])
+    return None
+
+
 def same(a, b):
     return strip_sites(a) == strip_sites(b)
 
@@ -543,3 +553,192 @@ def closure_atoms(F, clo_path, pred):
                 if sx not in out:
                     out.append(sx)
     return out
+
+
+# ---------------------------------------------------------------- sequence normal form
+# A vector-valued term is normalised to a list of parts, in order:
+#   ('one', v)    a single element v
+#   ('each', v)   one element per element of a source collection, v mentions ('elem', src)
+# so that `vec![a]; for x in xs { v.push(f(x)) }`, `once(a).chain(xs.iter()).map(f).collect()`,
+# `let mut v = Vec::new(); v.push(a); v.extend(xs.iter().map(f))` all compare equal.
+
+def _apply_callable(f, v):
+    """Value of calling a closure / fn item on v (None when f is not understood)."""
+    if not isinstance(f, tuple) or not f:
+        return None
+    if f[0] == 'closure':
+        return closure_value(f, {('param', 2): v})
+    if f[0] == 'fnref':
+        return ('call', f[1], (v,), None)
+    return None
+
+
+def _norm_elem(v):
+    """Normalise ('elem', src) sources inside a per-element value."""
+    if not isinstance(v, tuple) or not v:
+        return v
+    if v[0] == 'elem':
+        return ('elem', elem_source(_norm_elem(v[1])))
+    return tuple(_norm_elem(x) if isinstance(x, tuple) else x for x in v)
+
+
+def seq_iter_parts(it, depth=0):
+    """Parts produced by an iterator-valued term, or None."""
+    if depth > 12 or not isinstance(it, tuple) or not it:
+        return None
+    it = detry(it)
+    if it[0] == 'call':
+        nm = call_name(it)
+        a = it[2]
+        c = CALLEES.get(it[1])
+        is_iter = c is not None and (c.is_trait_method('Iterator') or c.is_trait_method('IntoIterator') or c.is_trait_method('DoubleEndedIterator'))
+        if nm == 'map' and len(a) == 2 and is_iter:
+            inner = seq_iter_parts(a[0], depth + 1)
+            if inner is None:
+                return None
+            out = []
+            for kind, v in inner:
+                r = _apply_callable(a[1], v)
+                if r is None:
+                    return None
+                out.append((kind, r))
+            return out
+        if nm == 'chain' and len(a) == 2 and is_iter:
+            x, y = seq_iter_parts(a[0], depth + 1), seq_iter_parts(a[1], depth + 1)
+            if x is None or y is None:
+                return None
+            return x + y
+        if nm == 'once' and len(a) == 1 and strip_generics(it[1]).endswith('iter::sources::once::once'):
+            return [('one', a[0])]
+        if nm == 'empty' and not a:
+            return []
+        if nm in ('iter', 'into_iter', 'cloned', 'copied', 'iter_mut', 'by_ref', 'drain') and a:
+            # a source adaptor over a collection: either a literal sequence or an opaque collection
+            lit = seq_parts(a[0], depth + 1, literal_only=True)
+            if lit is not None:
+                return lit
+            if nm in ('cloned', 'copied', 'by_ref'):
+                return seq_iter_parts(a[0], depth + 1)
+            return [('each', ('elem', elem_source(a[0])))]
+    # anything else iterable: an opaque collection
+    lit = seq_parts(it, depth + 1, literal_only=True)
+    if lit is not None:
+        return lit
+    if it[0] in ('unknown', 'undef', 'rec'):
+        return None
+    return [('each', ('elem', elem_source(it)))]
+
+
+def loop_push_total(body, push_block, use_block):
+    """A `push` inside a `for`/`while let Some(..) = it.next()` loop adds one element per iteration, for every iteration,
+    and the vector is only consumed (at use_block) after the iterator is exhausted:
+      (a) from the Some edge of the innermost enclosing next()-switch, the header is unreachable once the push block is removed
+          (no `continue` / conditional push), and
+      (b) from that edge the consumer is unreachable once the header is removed (no `break` that leaves with a partial vector)."""
+    from .terms import TermBuilder as _TB
+    heads = []
+    for h in body.normal_blocks():
+        t = body.term(h)
+        if not t or t['k'] != 'switch' or not body.dominates(h, push_block) or h not in body.reachable(push_block):
+            continue
+        heads.append(h)
+    # innermost = dominated by every other candidate
+    heads = [h for h in heads if all(body.dominates(o, h) for o in heads)]
+    if len(heads) != 1:
+        return False
+    h = heads[0]
+    t = body.term(h)
+    some = [bb for v, bb in t['targets'] if v == 1]
+    if len(some) != 1:
+        return False
+    s = some[0]
+    if h in body.reachable(s, removed_blocks=[push_block]):
+        return False
+    if use_block is not None and use_block != push_block and use_block in body.reachable(s, removed_blocks=[h]):
+        return False
+    return True
+
+
+SEQ_CTX = [None]     # (body, use_block) while a rule wants loop totality checked
+
+
+def seq_parts(t, depth=0, literal_only=False):
+    """Parts of a vector-valued term, or None when its construction is not understood.
+    With literal_only, an opaque collection (a parameter, a field, a call result) yields None instead of a single 'each' part."""
+    if depth > 12 or not isinstance(t, tuple) or not t:
+        return None
+    t = detry(t)
+    k = t[0]
+    if k in ('list', 'array'):
+        return [('one', x) for x in t[1]]
+    if k == 'call':
+        nm = call_name(t)
+        sp = strip_generics(t[1])
+        if nm in ('new', 'with_capacity') and ('::Vec::' in sp or sp.startswith('alloc::vec::Vec')):
+            return []
+        if nm == 'collect':
+            return seq_iter_parts(t[2][0], depth + 1)
+        if nm in ('from_iter',) and t[2]:
+            return seq_iter_parts(t[2][-1], depth + 1)
+        if nm in ('to_vec', 'into_vec') and t[2]:
+            return seq_parts(t[2][0], depth + 1, literal_only)
+    if k == 'mut':
+        nm = call_name(t)
+        base, args = t[3][t[2]], t[3]
+        if nm == 'push' and t[2] == 0 and len(args) == 2:
+            b = seq_parts(base, depth + 1, literal_only)
+            if b is None:
+                return None
+            return b + [('one', args[1])]
+        if nm in ('extend', 'extend_from_slice', 'append') and t[2] == 0 and len(args) == 2:
+            b = seq_parts(base, depth + 1, literal_only)
+            e = seq_iter_parts(args[1], depth + 1)
+            if b is None or e is None:
+                return None
+            return b + e
+        if nm in ('insert',):
+            return None
+    if k == 'phi':
+        alts = list(t[1])
+        init = [a for a in alts if not contains(a, lambda x: x == ('rec',))]
+        loop = [a for a in alts if contains(a, lambda x: x == ('rec',))]
+        if len(init) == 1 and loop:
+            b = seq_parts(init[0], depth + 1, literal_only)
+            if b is None:
+                return None
+            out = list(b)
+            # every loop alternative is `push(rec, v)`; several alternatives = pushes on different paths of one iteration
+            vals = []
+            for a in loop:
+                if a[0] == 'mut' and call_name(a) == 'push' and a[2] == 0 and len(a[3]) == 2 and a[3][0] == ('rec',):
+                    vals.append(a[3][1])
+                else:
+                    return None
+            if len(vals) != 1:
+                return None
+            if SEQ_CTX[0] is not None:
+                body, use_block = SEQ_CTX[0]
+                site = loop[0][4] if len(loop[0]) > 4 else None
+                if site is None or site[0] != body.path or not loop_push_total(body, site[1], use_block):
+                    return None
+            out.append(('each', vals[0]))
+            return out
+        return None
+    if literal_only:
+        return None
+    if k in ('unknown', 'undef', 'rec'):
+        return None
+    return [('each', ('elem', elem_source(t)))]
+
+
+def seq_norm(t, body=None, use_block=None):
+    """Canonical, site-free, `?`-free form of seq_parts (or None).  With body (and the block consuming the vector) loops that
+    build the vector are also checked to push once per element without skipping or leaving early."""
+    SEQ_CTX[0] = (body, use_block) if body is not None else None
+    try:
+        p = seq_parts(t)
+    finally:
+        SEQ_CTX[0] = None
+    if p is None:
+        return None
+    return [(k, strip_sites(_norm_elem(detry(v)))) for k, v in p]
